@@ -132,6 +132,71 @@ def r2_fixed_ranges(ctx):
   ctx.check(R, len(st) == 1, h.node, h, 'producer replaced', 'the fixed parameters must replace the producer entry of the output tensor')
 
 
+def r10_fixed_range_statistics(ctx, R='C04.R10'):
+  """The statistics written for a fixed-range output must give back the fixed
+  parameters when a consumer derives its parameters from them - otherwise
+  producer and consumer of the tensor disagree (a requantize is inserted, or the
+  plan is rejected). materialize_op_with_output_activation_constraint is
+  enumerated with exact rationals for every fixed entry x symmetric flag; the
+  consumer side is the repository's own tensor_zp_scale_from_min_max."""
+  import fractions  # pylint: disable=g-import-not-at-top
+  from sa import absint  # pylint: disable=g-import-not-at-top
+  rs = ctx.rule(R, 'fixed-range outputs: the statistics recorded for the output give back exactly the fixed scale / zero point on the consumer side', floor=3)
+  fixed = c13.fixed_range_tables(ctx)
+  h = ctx.repo.func(f'{MMU}:materialize_op_with_output_activation_constraint')
+  zs = ctx.repo.func('algorithms.uniform_quantize.uniform_quantize_tensor:tensor_zp_scale_from_min_max')
+  UQ = 'algorithms.uniform_quantize.uniform_quantize_tensor'
+  OTP, TTP = 'qtyping:OpToTensorParams', 'qtyping:TensorTransformationParams'
+  QT = {e.name: e for e in tables.enum(ctx, 'qtyping:QuantTransformation')}
+  rs.exhaustive = True
+  for op in sorted(fixed):
+    ctx.instance(R)
+    for bits, o in sorted(fixed[op].items()):
+      for sym in (False, True):
+        if sym and o.fields['zero_point'] != 0:
+          continue  # a symmetric activation config cannot carry a non-zero zero point (rejected by the policy)
+        P = Obj(o.cls, dict(o.fields))
+        P.fields['scale'] = fractions.Fraction(o.fields['scale'])
+        act = tables.tensor_config(ctx, num_bits=bits, symmetric=sym)
+        cfg = tables.construct(ctx, common.OPCFG, activation_tensor_config=act, weight_tensor_config=tables.tensor_config(ctx, num_bits=8),
+                               compute_precision=tables.enum_member(ctx, 'qtyping:ComputePrecision', 'INTEGER'))
+        op_obj = Obj('x:OperatorT', {'inputs': [0], 'outputs': [1]})
+        op_info = Obj('qtyping:OpInfo', {'op': op_obj, 'op_name': tables.enum_member(ctx, 'qtyping:TFLOperationName', op), 'subgraph_op_index': 0, 'op_quant_config': cfg})
+        qsv = {'in': {'min': -3, 'max': 5}, 'out': {'min': -7, 'max': 9}}
+        table = {b: (P if b == bits else x) for b, x in fixed[op].items()}
+
+        def std(args, kwargs):
+          return [Obj(TTP, {'tensor_name': 'in', 'producer': None, 'consumers': [Obj(OTP, {'subgraph_op_id': 0, 'transformations': [QT['ADD_QUANTIZE']], 'parameters': 'pin'})]}),
+                  Obj(TTP, {'tensor_name': 'out', 'producer': Obj(OTP, {'subgraph_op_id': 0, 'transformations': [QT['ADD_DEQUANTIZE']], 'parameters': 'pout'}), 'consumers': None})]
+        hooks = {f'{MMU}:materialize_standard_op': std,
+                 f'{UQ}:fix_quantization_params_rank': lambda a, k: a[1],
+                 f'{UQ}:_is_valid_quantization_params': lambda a, k: None,
+                 f'{UQ}:assign_quantized_type': lambda a, k: a[0]}
+        it = absint.Interp(ctx.repo, ctx.ev, hooks=hooks)
+        label = f'{op} {bits}-bit, symmetric={sym}: fixed scale {o.fields["scale"]} zero point {o.fields["zero_point"]}'
+        outs = it.outcomes(h, [op_info, absint.Opaque('graph_info'), qsv, table], copy_args=False)
+        if len(outs) != 1 or outs[0].kind != 'return':
+          ctx.check(R, False, h.node, h, label, f'not decided: {[x.short()[:100] for x in outs]}')
+          continue
+        res = outs[0].value
+        prod = res[-1].fields['producer'] if isinstance(res, list) and res and isinstance(res[-1], Obj) else None
+        ctx.check(R, isinstance(prod, Obj) and prod.fields['parameters'] is P, h.node, h, label, 'the output producer must carry the fixed parameters of the configured activation width')
+        mn, mx = qsv['out']['min'], qsv['out']['max']
+        if not (absint._is_num(mn) and absint._is_num(mx)):  # pylint: disable=protected-access
+          ctx.check(R, False, h.node, h, label, f'recorded statistics not folded: min={mn!r} max={mx!r}')
+          continue
+        back = it.outcomes(zs, [mn, mx, bits, sym], copy_args=False)
+        if len(back) != 1 or back[0].kind != 'return' or not isinstance(back[0].value, tuple):
+          ctx.check(R, False, zs.node, zs, label, f'consumer side not decided: {[x.short()[:100] for x in back]}')
+          continue
+        zp, sc = back[0].value
+        ok = absint._is_num(zp) and absint._is_num(sc) and zp == P.fields['zero_point'] and sc == P.fields['scale']  # pylint: disable=protected-access
+        ctx.check(R, ok, h.node, h, label,
+                  f'statistics written for the output are [{float(mn):.9g}, {float(mx):.9g}]; a consumer derives scale {(format(float(sc), ".9g") if absint._is_num(sc) else repr(sc))} / zero point {zp} from them, '
+                  f'not the fixed {o.fields["scale"]} / {o.fields["zero_point"]}: producer and consumer of the tensor disagree')
+        ctx.check(R, qsv['in'] == {'min': -3, 'max': 5}, h.node, h, label, 'the statistics of the input tensor must not be touched')
+
+
 def r3_channel_dim(ctx):
   R = 'C04.R3'
   ctx.rule(R, 'per-channel quantized dimension: table, batch-matmul rule, same rule at init and at materialisation', floor=4)
@@ -409,3 +474,4 @@ def run(ctx):
         v.rule = 'C04.R7'
   shared.rule_exact_equality(ctx, 'C04.R8')
   shared.rule_rebuild_completeness(ctx, 'C04.R9')
+  r10_fixed_range_statistics(ctx)
